@@ -79,6 +79,61 @@ func (g *xgen) elem(depth int) *xNode {
 	return n
 }
 
+// a random JSON-shaped value for the encoders (C03 at scale): attribute and text keys of both prefix families, lists incl.
+// nested and empty ones, nil, numbers, booleans, strings with special characters
+var (
+	xgKeys    = []string{"a", "b", "c", "e-f", "-x", "-y", "@y", "#text", "_text", "a"}
+	xgStrings = []string{"x", "y <", "&z", "]]>", "'q\"", "", " sp ", "1.5", "t\tab"}
+)
+
+func (g *xgen) jscalar() interface{} {
+	switch g.r.Intn(9) {
+	case 0:
+		return true
+	case 1:
+		return 1.5
+	case 2:
+		return nil
+	case 3:
+		return float64(42)
+	default:
+		return xgStrings[g.r.Intn(len(xgStrings))]
+	}
+}
+
+func (g *xgen) jvalue(depth int) interface{} {
+	if depth <= 0 {
+		return g.jscalar()
+	}
+	switch g.r.Intn(10) {
+	case 0, 1, 2, 3:
+		return g.jscalar()
+	case 4, 5, 6:
+		return g.jmap(depth)
+	default:
+		n := g.r.Intn(4)
+		l := make([]interface{}, n)
+		for i := range l {
+			l[i] = g.jvalue(depth - 1)
+		}
+		return l
+	}
+}
+
+func (g *xgen) jmap(depth int) map[string]interface{} {
+	n := 1 + g.r.Intn(5)
+	m := map[string]interface{}{}
+	for i := 0; i < n; i++ {
+		k := xgKeys[g.r.Intn(len(xgKeys))]
+		v := g.jvalue(depth - 1)
+		if (k[0] == '-' || k[0] == '@' || strings.HasSuffix(k, "text")) && g.r.Intn(8) != 0 {
+			v = g.jscalar() // attribute / text entries are mostly scalars (a container there is the documented error case)
+		}
+		m[k] = v
+	}
+	return m
+}
+
 func countElems(n *xNode) int {
 	c := 0
 	if n.K == "e" {
@@ -148,12 +203,29 @@ func recordXml(seed int64, n int, w *bufio.Writer, a *Acc) {
 		variant := g.r.Intn(3)
 		// the operation classes asked for (-ops), in turn
 		kinds := []string{}
-		for _, o := range []string{"dec", "rt", "seq"} {
+		for _, o := range []string{"dec", "rt", "seq", "encv"} {
 			if wantOp(o) {
 				kinds = append(kinds, o)
 			}
 		}
 		kind := kinds[g.r.Intn(len(kinds))]
+		if kind == "encv" {
+			mv := mxj.Map(g.jmap(2 + g.r.Intn(3)))
+			tv := tagged.FromGo(map[string]interface{}(mv))
+			cv := mxj.VerifOptions()["checkValid"].(bool)
+			mxj.XmlCheckIsValid(false)
+			b, e1 := mv.Xml()
+			mxj.XmlCheckIsValid(cv)
+			ev := map[string]interface{}{"op": "encv", "m": tv, "x": string(b), "encerr": cls(e1)}
+			if e1 != nil {
+				ev["x"] = ""
+			}
+			if tagged.CanonGo(mv) != tv.Norm() {
+				ev["encerr"] = "receiver-modified"
+			}
+			emit(w, ev)
+			continue
+		}
 		switch {
 		case kind == "dec":
 			emit(w, observeXml("dec", d, variant))
